@@ -74,6 +74,12 @@ theorem gen_i2cRead2 : Gen.C14.i2cRead2 = [16, 5] := by decide
 theorem gen_token : eepromToken = [0x30, 0x78, 0x42, 0x43] := by decide
 theorem gen_mod : Gen.C14.i2cChecksumMod = 256 := by decide
 
+set_option maxRecDepth 16384 in
+/-- every path that ends an update calls the callback and clears the pending record (D141 repaired: also the unknown version) -/
+theorem gen_i2c_paths : Gen.C14.i2cCbCalls.contains i2cPathUnknown = true ∧ Gen.C14.i2cCbClears.contains i2cPathUnknown = true ∧
+    Gen.C14.i2cCbCalls.contains i2cPathBadToken = true ∧ Gen.C14.i2cCbClears.contains i2cPathBadToken = true ∧
+    Gen.C14.i2cCbCalls.contains i2cPathDone = true ∧ Gen.C14.i2cCbClears.contains i2cPathDone = true := by decide
+
 theorem i2cUpdate_eq_decode (m : Mem) (hm : 21 ≤ m.length) : i2cUpdate m = .ok (i2cDecode m) := by
   unfold i2cUpdate i2cDecode
   simp only [gen_i2cRead1, gen_i2cRead2, List.getD_cons_zero, List.getD_cons_succ, Mem.read, List.drop_zero,
@@ -134,7 +140,7 @@ theorem i2cUpdate_eq_decode (m : Mem) (hm : 21 ≤ m.length) : i2cUpdate m = .ok
         simp only [Int.toNat_natCast]
         rw [hj]
         rfl
-      · rw [if_neg hv1, if_neg hv1]
+      · rw [if_neg hv1, if_neg hv1, gen_i2c_paths.1]
   · rw [if_neg htok, if_neg htok]
 theorem pack_cons_ok {c : Code} {cs : Fmt} {v : Val} {vs : List Val} {bs : List UInt8} (hx : c ≠ .x)
     (h : pack (c :: cs) (v :: vs) = .ok bs) : ∃ a r, packOne c v = .ok a ∧ pack cs vs = .ok r ∧ bs = a ++ r := by
